@@ -33,7 +33,7 @@ def main():
             f = f.f_back
         raise CheckTimeout(f'no verdict after {limit} s of CPU time; interrupted at:\n{where}\nlocals on the stack: {seen!r}')
     limit = int(os.environ.get('VERIF_CPU_LIMIT', '900' if a.tier == 'quick' else '36000'))
-    wall = int(os.environ.get('VERIF_WALL_LIMIT', '2400' if a.tier == 'quick' else '50000'))
+    wall = int(os.environ.get('VERIF_WALL_LIMIT', '1500' if a.tier == 'quick' else '50000'))
 
     def on_wall():
         # threads that wait for each other use no CPU: a wall-clock limit, enforced from a helper thread
